@@ -2,6 +2,7 @@
 #![allow(clippy::all)]
 
 pub mod backend;
+pub mod ck_crash;
 pub mod ck_engine;
 pub mod driver;
 pub mod hist;
